@@ -48,6 +48,79 @@ BUFLIMIT = {("beltFMTEncr", 1): 600, ("beltFMTDecr", 1): 600, ("beltPBKDF2", 1):
             ("belsRecover", 0): 16}
 
 
+# ---- boundary sweep of private keys and points (harness ops `key` / `pt`, Spec via drv_c09 keyclass / ptclass)
+KEY_FUNCS = ["bignPubkeyCalc", "bignKeypairVal", "bignDH", "bignSign", "bignSign2", "bignKeyUnwrap", "btokCVCWrap", "btokCVCIss",
+             "bign96PubkeyCalc", "bign96KeypairVal", "bign96Sign", "bign96Sign2", "g12sSign", "dstuSign",
+             "pfokPubkeyCalc", "pfokDH", "pfokMTI"]
+PT_FUNCS = ["bignPubkeyVal", "bignKeypairVal", "bignDH", "bignVerify", "bignKeyWrap", "bignIdVerify",
+            "bign96PubkeyVal", "bign96Verify", "bign96KeypairVal", "g12sVerify"]
+PT_VALID_ANY = {"bignKeypairVal", "bign96KeypairVal"}     # a valid point that does not match the private key is ERR_BAD_PUBKEY too
+KEY_NAMES = ["d=0", "d=1", "d=q-1", "d=q", "d=q+1", "d=ff..ff"]
+PT_NAMES = ["(0,0)", "(p-1,yG)", "(p,yG)", "(p+1,yG)", "(xG,p)", "y with one bit flipped", "G", "-G", "valid key"]
+
+
+def le_int(h):
+    return int.from_bytes(bytes.fromhex(h), "little") if h != "-" else 0
+
+
+def boundary_sweep(ctx, exe, have_drv, problems):
+    import x_c09obl
+    ops = ["key %s %d" % (f, i) for f in KEY_FUNCS for i in range(6)] + ["pt %s %d" % (f, i) for f in PT_FUNCS for i in range(9)]
+    out = x_c09obl.run_scen(ctx, exe, ops)
+    mops, midx, recs = [], [], []
+    for op, line in zip(ops, out):
+        kind, fn, idx = op.split()
+        idx = int(idx)
+        if line in ("skip", "unknown"):
+            recs.append(None)
+            continue
+        if not line.startswith("code="):
+            recs.append({"crash": line})
+            problems.append(("%s:%s-boundary" % (fn, "privkey" if kind == "key" else "point"), op, "crashed: " + line[:200]))
+            continue
+        f = dict(kv.split("=") for kv in line.split())
+        f["code"], f["out"] = int(f["code"]), int(f["out"])
+        if kind == "key":
+            z = fn in x_c09obl.ZERO_VALID_KEY
+            d, q = le_int(f["d"]), le_int(f["q"])
+            f["spec"] = "valid" if ((d > 0 or z) and d < q) else "504"
+            mops.append("keyclass %s %s %s" % (f["d"], f["q"], "z" if z else "n"))
+        else:
+            P, a, b, x, y = (le_int(f[k]) for k in "pabxy")
+            f["spec"] = "valid" if (x < P and y < P and (y * y - (x * x * x + a * x + b)) % P == 0) else "505"
+            mops.append("ptclass %s %s %s %s %s" % (f["p"], f["a"], f["b"], f["x"], f["y"]))
+        midx.append(len(recs))
+        recs.append(f)
+    model_bad = []
+    if have_drv and mops:
+        mo, merr, mrc = ctx.run_lines(ctx.driver(), mops)
+        if mrc != 0 or len(mo) != len(mops):
+            raise RuntimeError("drv_c09 failed: " + merr[-300:])
+        for i, m, mop in zip(midx, mo, mops):
+            if m != recs[i]["spec"]:
+                model_bad.append((mop, m, recs[i]["spec"]))
+    classes = set()
+    for op, f in zip(ops, recs):
+        if not f or "crash" in f:
+            continue
+        kind, fn, idx = op.split()
+        idx = int(idx)
+        what = (KEY_NAMES if kind == "key" else PT_NAMES)[idx]
+        cls = 504 if kind == "key" else 505
+        classes.add((fn, kind, idx, f["code"]))
+        key = "%s:%s-boundary" % (fn, "privkey" if kind == "key" else "point")
+        if f["spec"] != "valid":
+            if f["code"] != cls:
+                problems.append((key, op, "%s is outside the valid range but %s returned %d (header: %d)" % (what, fn, f["code"], cls)))
+            elif f["out"] != 0:
+                problems.append((key, op, "%s rejected with %d but an output buffer was written" % (what, cls)))
+        elif f["code"] == cls and fn not in PT_VALID_ANY:
+            problems.append((key, op, "%s is a valid %s but %s rejected it with %d" % (what, "private key" if kind == "key" else "point", fn, cls)))
+    ctx.cov["boundary_ops"] = sum(1 for r in recs if r)
+    ctx.cov["boundary_spec_model_mismatches"] = len(model_bad)
+    return len(ops), classes, model_bad
+
+
 def regen(ctx):
     import x_c09obl
     import importlib
@@ -298,6 +371,9 @@ def run(ctx):
         ctx.cov["chk_ops"] = n_chk
         ctx.cov["chk_rejected"] = sum(1 for c in c_out if c != "pass")
         ctx.samples += [{"op": op, "impl": c, "model": p} for op, c, p in list(zip(run_ops, c_out, run_pred))[::max(1, n_chk // 6)][:6]]
+    # ---- (a2) boundary values of private keys and points
+    nb, bclasses, bmodel = boundary_sweep(ctx, exe, have_drv, problems)
+    classes |= {(fn, "%s%d:%d" % (k, i, c)) for fn, k, i, c in bclasses}
     # ---- (b), (c): in every configuration of this tier
     ops2, fail2, res2, exits, path_bad = [], [], [], set(), []
     for cfg in (["asan"] if ctx.tier == "quick" else ["asan", "rel", "fast", "O0"]):
@@ -309,7 +385,7 @@ def run(ctx):
         path_bad += pb
     ctx.cov["error_exit_output_modified_by_design"] = sorted({d["fn"] for k, d in zip(fail2, res2) if not k and "crash" not in d and d["code"] != 0 and d["out"] == 2 and d["fn"] in OUTPUT_ON_ERROR})
     ctx.cov["alloc_failure_output_modified"] = sorted({d["fn"] for k, d in zip(fail2, res2) if k and "crash" not in d and d["failed"] and d["out"] != 0})
-    ctx.cov.update({"ops_total": n_chk + len(ops2), "scenario_runs": len(ops2), "alloc_failure_runs": sum(1 for k in fail2 if k),
+    ctx.cov.update({"ops_total": n_chk + nb + len(ops2), "scenario_runs": len(ops2), "alloc_failure_runs": sum(1 for k in fail2 if k),
                     "auth_failure_runs": sum(1 for d in res2 if "crash" not in d and d["code"] in (511, 513)),
                     "distinct_nontrivial": len(exits) + len(classes),
                     "functions_translated": len(info.get("fns", [])), "gen_functions_unhandled": [terr] if terr else [],
@@ -331,11 +407,14 @@ def run(ctx):
                          "the header of %s promises %s but neither the function nor a callee whose code it passes through ever "
                          "returns that class" % (fn, en)))
     ctx.cov["documented_classes_unproducible"] = ["%s:%s" % x for x in info.get("unproducible", [])]
+    ctx.cov["violating_inputs"] = len({op for key, op, what in problems})
     seen = set()
     for key, op, what in problems:
         if key in seen:
             continue
         seen.add(key)
+        if len(seen) > 12:
+            continue          # the rest is counted in the evidence (`violating_inputs`)
         ctx.violation(key, "# property C09: %s\n# replay: ./check C09 --replay <this file>\n%s\n" % (what, op), True, "%s [%s]" % (what, op))
     if not problems:
         if not proof_ok:
@@ -348,6 +427,10 @@ def run(ctx):
             op, c, p = mism[0]
             ctx.violation("cascade-model", "# property C09: implementation and regenerated argument-check cascade disagree; the header is not violated\n%s\n# impl %s model %s\n" % (op, c, p),
                           False, "%d sweep points differ, first: %s impl=%s model=%s" % (len(mism), op, c, p))
+        elif bmodel:
+            mop, m, sp = bmodel[0]
+            ctx.violation("spec-model", "# property C09: Lean Spec and the Python oracle disagree on a boundary value\n# %s -> %s, oracle %s\n" % (mop, m, sp),
+                          False, "%d boundary values: Lean Spec says %s, oracle %s (%s)" % (len(bmodel), m, sp, mop))
         elif path_bad:
             op, po, o = path_bad[0]
             ctx.violation("skeleton", "# property C09: observed blob events are not a path of the regenerated skeleton\n%s\n# %s -> %s\n" % (op, po, o),
@@ -396,6 +479,27 @@ def c19_stream():
 def replay(ctx, path):
     import x_c09obl
     ops = [l.strip() for l in open(path) if l.split() and l.split()[0] in ("scen", "chk")]
+    bops = [l.strip() for l in open(path) if l.split() and l.split()[0] in ("key", "pt")]
+    if bops:
+        import x_c09obl
+        exe = ctx.cc("harness/c09.c", "asan", extra=x_c09obl.WRAP)
+        bad = 0
+        for op in bops:
+            kind, fn, idx = op.split()
+            saved_k, saved_p = list(KEY_FUNCS), list(PT_FUNCS)
+            KEY_FUNCS[:] = [fn] if kind == "key" else []
+            PT_FUNCS[:] = [fn] if kind == "pt" else []
+            pr = []
+            try:
+                boundary_sweep(ctx, exe, False, pr)
+            finally:
+                KEY_FUNCS[:] = saved_k
+                PT_FUNCS[:] = saved_p
+            hit = [p for p in pr if p[1] == op]
+            print("%s -> %s" % (op, "; ".join(p[2] for p in hit) or "as specified"))
+            bad |= bool(hit)
+        print("property C09 %s on the current tree for this input" % ("VIOLATED" if bad else "holds"))
+        return 1 if bad else 0
     cls = [l.split()[1:3] for l in open(path) if l.split() and l.split()[0] == "class" and len(l.split()) == 3]
     if cls:
         import x_cfg, x_c09obl
